@@ -70,7 +70,7 @@ pub fn run(tier: Tier) -> i32 {
     let mut repeated_programs = 0u64;
     {
         // (name, parameters, result type of E, E)
-        let constructs: [(&str, &str, &str, &str); 22] = [
+        let constructs: [(&str, &str, &str, &str); 26] = [
             ("add", "a: u8 | b: u8", "u8", "a + b"),
             ("sub", "a: u8 | b: u8", "u8", "a - b"),
             ("mul", "a: u8 | b: u8", "u8", "a * b"),
@@ -89,6 +89,10 @@ pub fn run(tier: Tier) -> i32 {
             ("if-zero-else", "a: u8 | b: bool", "u8", "if b { a } else { 0u8 }"),
             ("match-range", "a: u8 | b: u8", "u8", "match a { 0u8..=9u8 => b, 10u8 => 1u8, _ => a }"),
             ("and-or", "a: bool | b: bool", "bool", "(a && b) || (a ^ b)"),
+            ("or-of-ands", "a: bool | b: bool | d: bool", "bool", "(a & b) | (a & d)"),
+            ("or-of-ands-absorbed", "a: bool | b: bool | d: bool", "bool", "(a & b) | (a & (b & d))"),
+            ("or-of-ands-u8", "a: u8 | b: u8 | d: u8", "u8", "(a & b) | (d & a)"),
+            ("xor-of-ands", "a: bool | b: bool | d: bool", "bool", "(a & b) ^ (d & a)"),
             ("tuple-eq", "a: (u8, bool) | b: (u8, bool)", "bool", "a == b"),
             ("array-eq", "a: [u8; 2] | b: [u8; 2]", "bool", "a != b"),
             // (a join nested in a tuple or an `if` does not type-check against a written array type:
@@ -172,7 +176,7 @@ pub fn run(tier: Tier) -> i32 {
         m.insert("builder_states_scanned".into(), json!(bfs_states));
         m.insert("large_programs_scanned".into(), json!(large_programs));
         m.insert("data_movement_texts_scanned(single-variant enums, newtypes, marker enums, unit fields; AND count must be 0)".into(), json!(movement_texts));
-        m.insert("repeated_construct_programs_scanned(22 constructs x {side by side, bound twice, both branches, helper called twice, in a loop}, dedup on and off)".into(), json!(repeated_programs));
+        m.insert("repeated_construct_programs_scanned(26 constructs x {side by side, bound twice, both branches, helper called twice, in a loop}, dedup on and off)".into(), json!(repeated_programs));
         m.insert("large_programs_gates_total".into(), json!(large_gates));
         m.insert("builder_circuits_scanned".into(), json!(bfs_builds));
         m.insert("exhaustive".into(), json!(fr.complete && bfs_complete));
